@@ -350,10 +350,9 @@ class Ref(ast.NodeTransformer):
             if h.type is not None:
                 h.type = self.after("exception_handler_type", h.type, self.visit(h.type))
             elif "exception_handler_type" in self.ev:
-                # a bare `except:` is read as `except BaseException:` (pyccolo's documented desugaring): the event
-                # fires with no source node
-                self.poss.append(None)
-                h.type = call(A, const("exception_handler_type"), const(len(self.poss) - 1), ast.Name("BaseException", ast.Load()))
+                # a bare `except:` is read as `except BaseException:` (pyccolo's documented desugaring): there is no type
+                # expression, the event is about the handler itself
+                h.type = call(A, const("exception_handler_type"), self.p(h), ast.Name("BaseException", ast.Load()))
             h.body = self.body(h.body)
         node.orelse = self.body(node.orelse)
         node.finalbody = self.body(node.finalbody)
